@@ -455,7 +455,12 @@ func (c *Ctx) batchAlignment(prop string, s *Slashing, fhs map[*ssa.Function]boo
 	var kMeta, kReq, kState ssa.Value
 	for _, ci := range Calls(E, func(ci ssa.CallInstruction) bool {
 		f := ci.Common().StaticCallee()
-		return f != nil && prog.InModule(f) && !fhs[f] && shs[f] == nil
+		if f == nil || !prog.InModule(f) || fhs[f] || shs[f] != nil {
+			return false
+		}
+		// the check yields a verdict (a state updater called with the same objects does not)
+		res := f.Signature.Results()
+		return res.Len() == 1 && namedIs(res.At(0).Type(), pkgRules, "Result")
 	}) {
 		for _, a := range ci.Common().Args {
 			if isStatePtr(a.Type()) {
